@@ -52,7 +52,8 @@ Proof.
     set (sh := horner_fl A l' x) in *. set (s := hornerC l' x) in *.
     change (horner_fl A (a :: l') x) with (fadd A (fmul A sh x) a).
     change (hornerC (a :: l') x) with (a + x * s)%C.
-    set (P := habs l' (Cmod x)) in *. simpl habs. fold P.
+    change (habs (a :: l') (Cmod x)) with (Cmod a + Cmod x * habs l' (Cmod x)).
+    set (P := habs l' (Cmod x)) in *.
     set (G := (1 + mu) ^ (2 * k)) in *.
     replace ((1 + mu) ^ (2 * S k)) with (G * ((1 + mu) * (1 + mu))).
     2:{ unfold G. replace (2 * S k)%nat with (S (S (2 * k))) by lia. simpl. ring. }
@@ -139,7 +140,7 @@ Proof.
   pose proof (habs_ge_0 l (Cmod x) (Cmod_ge_0 x)) as HP.
   rewrite mult_INR in Hg. simpl INR in Hg.
   eapply Rle_trans; [apply Rmult_le_compat_r; [exact HP|exact Hg]|].
-  apply Req_le. ring.
+  apply Req_le. field.
 Qed.
 
 (* The multiprecision estimate of mps_mhorner_with_error2, u4 (apol + |value|), bounds the
@@ -189,7 +190,7 @@ Proof.
 Qed.
 
 Lemma sec_major_bound : forall mu nu ab x M, 0 <= mu -> 0 <= nu -> 0 <= M ->
-  sec_major mu nu ab x M <= (1 + nu) * (1 + mu) ^ length ab * (M + sec_abs ab x).
+  sec_major mu nu ab x M <= (1 + mu) ^ length ab * (M + (1 + nu) * sec_abs ab x).
 Proof.
   intros mu nu ab x M Hmu Hnu. revert M.
   induction ab as [|[a b] r IH]; intros M HM.
@@ -198,15 +199,17 @@ Proof.
     assert (Ht : 0 <= tau).
     { pose proof (sec_abs_ge_0 [(a, b)] x) as H. simpl in H. fold tau in H. lra. }
     pose proof (sec_abs_ge_0 r x) as Hr.
-    assert (HM' : 0 <= (1 + mu) * (M + (1 + nu) * tau)) by nra.
+    assert (Hnt : 0 <= (1 + nu) * tau) by (apply Rmult_le_pos; lra).
+    assert (HM' : 0 <= (1 + mu) * (M + (1 + nu) * tau)) by (apply Rmult_le_pos; lra).
     eapply Rle_trans; [apply IH; exact HM'|].
     assert (Hp : 0 <= (1 + mu) ^ length r) by (apply pow_le; lra).
     simpl pow.
-    assert (0 <= (1 + nu) * (1 + mu) ^ length r) by nra.
-    set (g := (1 + nu) * (1 + mu) ^ length r) in *.
-    replace ((1 + nu) * ((1 + mu) * (1 + mu) ^ length r) * (M + (tau + sec_abs r x)))
-      with (g * ((1 + mu) * (M + (tau + sec_abs r x)))) by (unfold g; ring).
-    apply Rmult_le_compat_l; [lra|]. nra.
+    replace ((1 + mu) * (1 + mu) ^ length r * (M + (1 + nu) * (tau + sec_abs r x)))
+      with ((1 + mu) ^ length r * ((1 + mu) * (M + (1 + nu) * (tau + sec_abs r x)))) by ring.
+    apply Rmult_le_compat_l; [exact Hp|].
+    assert (Hns : 0 <= (1 + nu) * sec_abs r x) by (apply Rmult_le_pos; lra).
+    assert (0 <= mu * ((1 + nu) * sec_abs r x)) by (apply Rmult_le_pos; lra).
+    lra.
 Qed.
 
 (* one rounded term a/(x-b):  |fl(a / fl(x-b)) - a/(x-b)| <= (2mu/(1-mu)) |a|/|x-b| *)
@@ -238,7 +241,7 @@ Proof.
   { replace (a / dh - a / d)%C with (a * (- (dh - d)) / (dh * d))%C by (field; split; assumption).
     rewrite Cmod_div.
     - rewrite !Cmod_mult, Cmod_opp. reflexivity.
-    - intro E. apply Cmult_integral in E. tauto. }
+    - apply Cmult_neq_0; assumption. }
   replace (fdiv A a dh - a / d)%C with ((fdiv A a dh - a / dh) + (a / dh - a / d))%C by ring.
   eapply Rle_trans; [apply Cmod_triangle|]. rewrite Hdiff.
   assert (H1m : 0 < 1 - mu) by lra.
@@ -269,6 +272,17 @@ Proof.
 Qed.
 
 Definition all_ne (ab : list (C * C)) (x : C) : Prop := Forall (fun p => x <> snd p) ab.
+
+Lemma sec_terms_le_abs : forall ab x, all_ne ab x -> Cmod (sec_terms ab x) <= sec_abs ab x.
+Proof.
+  induction ab as [|[a b] r IH]; intros x Hne; simpl.
+  - rewrite Cmod_0. lra.
+  - inversion Hne as [|p q Hxb Hne']; subst. simpl in Hxb.
+    eapply Rle_trans; [apply Cmod_triangle|].
+    rewrite Cmod_div.
+    + pose proof (IH x Hne'). lra.
+    + intro E. apply Hxb. replace x with ((x - b) + b)%C by ring. rewrite E. ring.
+Qed.
 
 Lemma sec_sum_invariant : forall A mu ab x acc accx M Ab,
   std_model mu A -> mu < 1 -> all_ne ab x ->
@@ -343,16 +357,7 @@ Proof.
     replace (RtoC 0 + sec_terms ab x)%C with (sec_terms ab x) in He by ring.
     rewrite Rplus_0_l in He.
     set (S := sec_terms ab x) in *.
-    assert (HSm : Cmod S <= Sa).
-    { unfold S, Sa. clear. induction ab as [|[a b] r IH]; simpl; [rewrite Cmod_0; lra|].
-      eapply Rle_trans; [apply Cmod_triangle|].
-      destruct (Ceq_dec (x - b)%C (RtoC 0)) as [E|E].
-      - rewrite E. unfold Cdiv. replace (a * / RtoC 0)%C with (a * / RtoC 0)%C by reflexivity.
-        assert (Z : (/ RtoC 0)%C = RtoC 0).
-        { unfold Cinv, RtoC; simpl. f_equal; field_simplify_eq; try lra;
-            rewrite ?Rmult_0_l, ?Rplus_0_l, ?Rinv_0; unfold Rdiv; rewrite ?Rinv_0; ring. }
-        rewrite Z, Cmult_0_r, Cmod_0. unfold Rdiv. rewrite Rinv_0. lra.
-      - rewrite Cmod_div by exact E. lra. }
+    assert (HSm : Cmod S <= Sa) by (apply sec_terms_le_abs; exact Hne).
     unfold sec_exact. fold S.
     pose proof (Hsub s (RtoC 1)) as H1.
     assert (Hs_le : Cmod s <= Mf).
@@ -369,6 +374,7 @@ Proof.
       by (rewrite pow_add; simpl; ring).
     set (g := (1 + nu) * (1 + mu) ^ length ab) in *.
     assert (Hg : 1 <= g) by (unfold g; nra).
+    assert (HMg : Mf <= g * Sa) by (unfold g; lra).
     assert ((1 + mu) * (Mf + 1) <= (1 + mu) * (g * (Sa + 1))).
     { apply Rmult_le_compat_l; [lra|]. nra. }
     replace ((1 + nu) * ((1 + mu) ^ length ab * (1 + mu))) with (g * (1 + mu)) by (unfold g; ring).
